@@ -259,26 +259,71 @@ theorem down_getElem (a : Int) : ∀ (n i : Nat) (h : i < (down a n).length), (d
     | zero => simp [down]
     | succ i => simp [down]; rw [ih]; omega
 
+theorem interleave_nil_right {β : Type} (xs : List β) : interleave xs [] = xs := by
+  cases xs <;> simp [interleave]
+
 theorem cands_sorted (t : Int) (len n : Nat) :
     (cands t len n).Pairwise (fun a b => key t a < key t b) := by
   unfold cands
   simp only
-  by_cases hc : t - 1 ≤ (len : Int) - n
-  · have e1 : min (t - 1) ((len : Int) - n) = t - 1 := by omega
-    have e2 : min t ((len : Int) - n + 1) = t := by omega
-    rw [e1, e2]
-    apply interleave_sorted (key t) _ _ 1
-    · intro i h; rw [up_getElem]; unfold key; split <;> omega
-    · intro j h; rw [down_getElem]; unfold key; split <;> omega
-  · have e0 : ((len : Int) - n - t).toNat = 0 := by omega
-    have e1 : min (t - 1) ((len : Int) - n) = (len : Int) - n := by omega
-    rw [e0, e1]
-    simp only [up, interleave]
+  by_cases ht : -1 ≤ t
+  · have m1 : max (t + 1) 0 = t + 1 := by omega
+    have m2 : max t (-1) = t := by omega
+    rw [m1, m2]
+    by_cases hc : t - 1 ≤ (len : Int) - n
+    · have e1 : min (t - 1) ((len : Int) - n) = t - 1 := by omega
+      have e2 : min t ((len : Int) - n + 1) = t := by omega
+      rw [e1, e2]
+      apply interleave_sorted (key t) _ _ 1
+      · intro i h; rw [up_getElem]; unfold key; split <;> omega
+      · intro j h; rw [down_getElem]; unfold key; split <;> omega
+    · have e0 : ((len : Int) - n - t).toNat = 0 := by omega
+      have e1 : min (t - 1) ((len : Int) - n) = (len : Int) - n := by omega
+      rw [e0, e1]
+      simp only [up, interleave]
+      rw [List.pairwise_iff_getElem]
+      intro i j hi hj hij
+      rw [down_getElem, down_getElem]
+      unfold key
+      split <;> split <;> omega
+  · -- the first guess is before the start of the file: only the (clamped) forward range is left
+    have m1 : max (t + 1) 0 = 0 := by omega
+    have m2 : max t (-1) = -1 := by omega
+    have e0 : (min t ((len : Int) - n + 1)).toNat = 0 := by omega
+    rw [m1, m2, e0]
+    simp only [down, interleave_nil_right]
     rw [List.pairwise_iff_getElem]
     intro i j hi hj hij
-    rw [down_getElem, down_getElem]
+    rw [up_getElem, up_getElem]
     unfold key
     split <;> split <;> omega
+
+theorem length_interleave {β : Type} : ∀ (xs ys : List β), (interleave xs ys).length = xs.length + ys.length := by
+  intro xs
+  induction xs with
+  | nil => intro ys; simp [interleave]
+  | cons a xs ih =>
+    intro ys
+    cases ys with
+    | nil => simp [interleave]
+    | cons b ys => simp [interleave, ih ys]; omega
+
+theorem length_up (a : Int) (n : Nat) : (up a n).length = n := by
+  induction n generalizing a with
+  | zero => simp [up]
+  | succ n ih => simp [up, ih]
+
+theorem length_down (a : Int) (n : Nat) : (down a n).length = n := by
+  induction n generalizing a with
+  | zero => simp [down]
+  | succ n ih => simp [down, ih]
+
+/-- the offset search tries at most one position per line of the file (plus one), whatever line number
+the patch states and whatever offset the previous hunk had -/
+theorem cands_length_le (t : Int) (len n : Nat) : (cands t len n).length ≤ len + 1 := by
+  unfold cands
+  simp only [length_interleave, length_up, length_down]
+  omega
 
 /-- every position other than `t` where a needle of length `n` fits is a candidate -/
 theorem mem_cands {t p : Int} {len n : Nat} (h0 : 0 ≤ p) (h1 : n + p.toNat ≤ len) (hne : p ≠ t) :
